@@ -54,6 +54,10 @@ func verifClientValue(name string) (string, bool) {
 	if !verifrt.Bool(name + ".present") {
 		return "", false
 	}
+	// a header that is present but blank ("X-Request-ID:" with an empty value): treated as "not supplied"
+	if verifrt.Bool(name + ".blank") {
+		return "", true
+	}
 	n := 1 + verifrt.Choice(name+".len", 3)
 	v := verifrt.String(name, n)
 	for i := 0; i < len(v); i++ {
@@ -99,7 +103,7 @@ func VerifC16Propagation() {
 	if cfg.RequestID.Enabled {
 		verifrt.Assert(gotR != "", "every response carries the request-ID header when enabled")
 		verifrt.Assert(gotR == seenR, "the request ID the backend sees equals the one the client gets")
-		if hasR {
+		if hasR && cr != "" {
 			verifrt.Assert(gotR == cr, "a client-supplied request ID is propagated unchanged")
 		}
 	} else {
@@ -108,7 +112,7 @@ func VerifC16Propagation() {
 	if cfg.Trace.Enabled {
 		verifrt.Assert(gotT != "", "every response carries the trace header when enabled")
 		verifrt.Assert(gotT == seenT, "the trace ID the backend sees equals the one the client gets")
-		if hasT {
+		if hasT && ct != "" {
 			verifrt.Assert(gotT == ct, "a client-supplied trace ID is propagated unchanged")
 		}
 	} else {
